@@ -60,7 +60,7 @@ def ctxOf (j : Json) : R Ctx := do
   let origin := match c.getObjVal? "origin" with
     | .ok (.num n) => some n.mantissa
     | _ => none
-  return ⟨rid, names, origin⟩
+  return ⟨rid, names, origin, (strF c "original_id").toOption⟩
 
 /-- common reply for `X.fromJson`-style kinds -/
 def reply {α} (input : J) (out : Outcome α) (enc : α → J) (valid : α → Bool) (extra : List (String × Json) := []) : Json :=
@@ -105,7 +105,7 @@ def handle (j : Json) : R Json := do
       | .reuse y => y.rules.annotateAll.map fun p =>
           jArr [.str p.1,
                 jArr ((p.2.secmet.getD []).map fun (d : SDomain) => jArr [.str d.name, decJ d.evalue, decJ d.bitscore, toJson d.nseeds, .str d.tool]),
-                jArr (p.2.functions.map fnJ)]
+                jArr (p.2.functions.annotations.map fnJ)]
       | _ => []
     -- the producing run (present when the stored JSON was written by the real run_on_record)
     let produced ← match j.getObjVal? "saved_opts" with
